@@ -36,7 +36,7 @@ fn kind_label(k: TKind) -> &'static str {
     }
 }
 
-const N_INJECTORS: usize = 34;
+const N_INJECTORS: usize = 35;
 
 pub fn inject(rng: &mut Rng, base: &TsDoc) -> Option<Fault> {
     for _ in 0..40 {
@@ -499,6 +499,21 @@ pub fn inject_one(rng: &mut Rng, base: &TsDoc, which: usize) -> Option<Fault> {
                     done!("TS9", format!("directive-argument-type|{site_label}"));
                 }
             }
+        }
+        // ---------------- TS9 on an extension of a built-in scalar (merged into a definition nitrogql generates itself)
+        34 => {
+            let b = rng.s(crate::schema_ix::BUILTIN_SCALARS).to_string();
+            let (dir, label) = match rng.below(3) {
+                0 => (Dir::new("deprecated", vec![]), "directive-misplaced"),
+                1 => (Dir::new("noSuchDirectiveAtAll", vec![]), "directive-unknown"),
+                _ => (Dir::new("specifiedBy", vec![("url", Val::str("https://example.com/x")), ("bogusArgument", Val::int("1"))]), "directive-unknown-argument"),
+            };
+            let mut e = TypeDef::new(TKind::Scalar, &b);
+            e.ext = true;
+            e.dirs.push(dir);
+            let at = rng.below(doc.defs.len() + 1);
+            doc.defs.insert(at, TsDef::Type(e));
+            done!("TS9", format!("{label}|extension-of-built-in-scalar"));
         }
         // ---------------- TS10 recursive directive definitions
         _ => {
